@@ -213,6 +213,21 @@ func propC10(c c10Case) *Outcome {
 			close(p.ready)
 			select {
 			case <-ctx.Done():
+				// the caller's side has gone (its Invoke / receive returns about now); this handler is
+				// still running and the accessor still answers with the caller's context
+				for i := 0; i < 3; i++ {
+					time.Sleep(300 * time.Microsecond)
+					cc := inprocgrpc.ClientContext(ctx)
+					if cc == nil {
+						p.fault("level %d handler, still running after the caller's cancellation: ClientContext(ctx) is nil", level)
+						break
+					}
+					for _, v := range c.Levels[level].Vals {
+						if got := cc.Value(v.key()); got != v.Val {
+							p.fault("level %d handler, still running after the caller's cancellation: ClientContext(ctx).Value(%#v) = %v, want %q", level, v.key(), got, v.Val)
+						}
+					}
+				}
 			case <-time.After(stallBound):
 				p.fault("innermost handler (level %d): context not cancelled within %v of the caller's cancellation", level, stallBound)
 			}
